@@ -44,6 +44,6 @@ Example C12_nonvacuous :
                 | LBlank => "blank" | LItem _ => "item" | LIgnorable => "ignorable"
                 | LReported => "reported" | LAbort => "abort" end)
       ["10 permit ip any any"; "remark x"; "statistics per-entry"; "no statistics per-entry"; "  ";
-       "permit ip 10.0.0.0 85.85.85.85 any"; "permit ip any"]
+       "permit ip 10.0.0.0 0.255.255.254 any"; "permit ip any"]
   = ["item"; "item"; "ignorable"; "reported"; "blank"; "abort"; "reported"].
 Proof. vm_compute. reflexivity. Qed.
